@@ -62,9 +62,12 @@ def run(ctx):
     loops = [n for n in walk_own(fn) if isinstance(n, (ast.For, ast.While))]
     ok = len(loops) == 1 and isinstance(loops[0], ast.For) and isinstance(loops[0].iter, ast.Call) and norm(loops[0].iter.func) == "range" and all(isinstance(a, ast.Constant) and isinstance(a.value, int) for a in loops[0].iter.args)
     ctx.check("R1-bounded-loop", where, ok, "the resolution loop is a for over range(<constant>)", construct=norm(loops[0])[:60] if loops else "", message="conflict resolution is no longer bounded: it can loop forever on conflicts that regenerate each other")
+    from ..astutil import bind_roles, canonicalise
+
+    fn = canonicalise(fn, bind_roles(fn, {"conflicts": ("assign", "tt.find_raw_conflicts()")}, where))
     g = build_cfg(fn)
     rets = [n for n in g.nodes if n.kind == "stmt" and isinstance(n.ast, ast.Return)]
-    tests = [n for n in g.nodes if n.kind == "test" and norm(n.ast) == "len(conflicts) == 0"]
+    tests = [n for n in g.nodes if n.kind == "test" and norm(n.ast) in ("len(conflicts) == 0", "not conflicts")]
     ok = len(rets) == 1 and len(tests) == 1
     if ok:
         cut = {(tests[0].id, b, l) for (b, l) in g.succ[tests[0].id] if l == "T"}
